@@ -16,6 +16,8 @@ Decided clauses (all call sites / all paths, from the source):
          `args` list is dominated by a length guard that implies it.
   C05.g  tokenizer wrapper: TokenizerCore._scan runs only under tokenize()'s
          `except Exception -> TokenError`; every public tokenizer entry reaches it.
+  C05.h  definite assignment (mypy's opt-in `possibly-undefined` from the repo's own environment,
+         run as a library): no local is read before assignment (UnboundLocalError leak).
 Does not decide: None-dereferences in general, polynomial work bounds, recursion depth.
 """
 
@@ -596,6 +598,67 @@ def rule_g(ctx: Ctx) -> None:
     _ = (tc, core)
 
 
+# (module:qualname, variable) -> reason mypy's possibly-undefined report is infeasible
+REVIEWED_UNDEFINED = {
+    ("sqlglot.parser:Parser._parse_table_parts_fast", "table"):
+        "`parts` is None or a list created together with its first element, so n >= 1 and one of the n == 1 / n == 2 / n >= 3 branches always binds `table`",
+}
+
+
+def rule_h(ctx: Ctx) -> None:
+    ctx.rule(
+        "C05.h",
+        "definite assignment (typed lint, mypy `possibly-undefined`): no local of the tokenizer/parser/generator/dialect/transform modules can be read "
+        "before assignment — in particular after a `self.raise_error(...)` / `self.unsupported(...)` that returns under lenient error levels",
+    )
+    import re
+
+    from ..typed import types
+
+    T = types(ctx.repo)
+    ctx.count("typed_expressions", T.n)
+    n = 0
+    seen = set()
+    for msg in T.messages:
+        mm = re.match(r'(.+?\.py):(\d+): error: Name "(\w+)" may be undefined', msg)
+        if not mm:
+            continue
+        path, line, var = mm.group(1), int(mm.group(2)), mm.group(3)
+        modname = path[:-3].replace("/", ".")
+        if modname.endswith(".__init__"):
+            modname = modname[: -len(".__init__")]
+        if not (modname in HOT or modname.startswith(tuple(h + "." for h in HOT))) or modname.startswith(HOT_EXCLUDE):
+            continue
+        m = ctx.repo.modules.get(modname)
+        if m is None:
+            continue
+        # enclosing function by line
+        best = None
+        for f in m.funcs.values():
+            if f.node.lineno <= line <= (f.node.end_lineno or f.node.lineno):
+                if best is None or f.node.lineno >= best.node.lineno:
+                    best = f
+        where = best.key if best else modname
+        if (where, var) in seen:
+            continue
+        seen.add((where, var))
+        n += 1
+        if (where, var) in REVIEWED_UNDEFINED:
+            ctx.ok(f"{where}|{var}", {"function": where, "variable": var, "reviewed": REVIEWED_UNDEFINED[(where, var)]})
+            continue
+        node = best.node if best else m.tree
+        ctx.fail(m, ast.Name(id=var, lineno=line, col_offset=0), where, f"read of `{var}` that may be unassigned",
+                 f"`{var}` can be read before assignment (line {line}): on the path that skips its binding — typically after a raise_error()/unsupported() "
+                 f"that returns under a non-raising level — Python raises UnboundLocalError instead of a sqlglot error")
+        _ = node
+    # functions analysed: every function of the hot modules was type-checked by the same mypy run
+    nfun = sum(len(m.funcs) for k, m in ctx.repo.modules.items() if (k in HOT or k.startswith(tuple(h + "." for h in HOT))) and not k.startswith(HOT_EXCLUDE))
+    ctx.count("functions_checked", nfun)
+    ctx.count("possibly_undefined_reports", n)
+    ctx.ok("definite assignment over hot modules", {"functions": nfun, "reports": n})
+    ctx.min_instances("functions_checked", nfun, 2000)
+
+
 def _loops(ctx: Ctx) -> None:
     from . import c05_loops
 
@@ -603,7 +666,7 @@ def _loops(ctx: Ctx) -> None:
     c05_loops.rule_b(ctx)
 
 
-RULES = [rule_c, rule_d, rule_e, rule_f, rule_g, _loops]
+RULES = [rule_c, rule_d, rule_e, rule_f, rule_g, _loops, rule_h]
 EXPLANATION = (
     "Termination and exception-family discipline decided on every path of the tokenizer/parser/generator sources: progress "
     "witnesses for every while loop with interprocedural 'productive' summaries, provenance of every _retreat target, "
